@@ -22,6 +22,23 @@ CLAIMED = {
          '(short/empty header, unknown command, length or checksum mismatch are rejected), payload-after-header on every exit, '
          'every transport write/read inside one critical section of the writer/reader lock',
          'struct.pack/unpack and the raw transport are trusted models; non-interleaving of two writers follows from the lock obligations by the standard monitor lemma (manual); read_until not under contract'),
+ 'C02': ('every executor handler (_execute_node dispatch, abortable / teardown sequence loops, subtest, branch, group, phase, checkpoint) verified against a '
+         'generic node contract plus its own rule over a ghost call log (which children are invoked, in which order, with which subtest record and teardown '
+         'flag); structural induction over the node tree by using the handlers\' contracts at the recursive calls; branch conditions (ALL/ANY/NOT_ANY/NOT_ALL), '
+         'checkpoint conditions (LAST/ALL/SUBTEST, diagnosis conditions), one record per evaluation',
+         'the node tree is assumed finite and made of the concrete node classes (constructors not under contract); user phase bodies are opaque; '
+         'the document docs/event_sequence.md is represented by the rules in contracts/c02.py, which were written from it and from the property text'),
+ 'C03': ('group gate (setup must CONTINUE), main then teardown exactly once with the teardown flag, teardown of a group entered before a subtest failure, '
+         'most-critical result, teardown sequence runs every node unless a second abort, under the teardown lock; stop + reset_stop form one critical '
+         'section of that lock on a non-forced abort; every acquired lock released on every exit',
+         'the interleaving clause (an abort landing between any two statements) is outside this technique: only the lock discipline and the order of flag '
+         'reads / writes are proved; PhaseExecutor.stop is used by contract (its wait loop is concurrency)'),
+ 'C16': ('response loop (INFO forwarded in order, OKAY payload returned, FAIL / out-of-place DATA or OKAY / unknown header raise the prescribed error), '
+         'one "command[:arg]" packet per command, download announcement "download:%08x", image bytes only after DATA with exactly that size, '
+         'exactly the image in order in chunks <= chunk size, cumulative progress, progress-callback failures absorbed (coroutine contract); '
+         'counter-models are replayed on the real FastbootProtocol behind a scripted fake bootloader',
+         'usb handle and StringIO-like source are trusted ghost models; unhexlify / struct.unpack(">I") / "%08x" round trip is a trusted fact; '
+         'partial correctness only for _write (the announced length must equal what the source holds); fastboot_device.py not under contract'),
  'C17': ('ghost file-system invariant "the destination only ever receives the complete serialization", checked after every file-system operation of '
          'Atomic, OutputToFile.__call__ (str and chunked serializers, serializer failing after k chunks, every write/close/move failing) and atomic_write',
          'file-system model is trusted (atomic rename on one file system, buffered writes reach the file as a prefix until close succeeds)'),
